@@ -210,6 +210,9 @@ func c20Generated(r *vlib.Run, anch map[string]anchorInfo) {
 					continue
 				}
 				cmp := compareOptions(gd, wd)
+				if i%16 == 0 && v == 0 {
+					c20OracleSelfTest(r, wd)
+				}
 				for e := 0; e < cmp.sites-cmp.withOptions; e++ {
 					r.Eval("")
 				}
@@ -635,4 +638,49 @@ func errTail(summary string) string {
 		sb.WriteByte(' ')
 	}
 	return strings.TrimSpace(sb.String())
+}
+
+// c20OracleSelfTest changes one option value of a decoded file and requires
+// the comparison to notice.
+func c20OracleSelfTest(r *vlib.Run, want *descriptorpb.FileDescriptorProto) {
+	mut := proto.Clone(want).(*descriptorpb.FileDescriptorProto)
+	changed := ""
+	walkOptionSites(mut, func(s *optSite) {
+		if changed != "" || !s.Has {
+			return
+		}
+		s.Opts.Range(func(fd protoreflect.FieldDescriptor, v protoreflect.Value) bool {
+			switch {
+			case fd.IsList() && v.List().Len() > 0:
+				v.List().Truncate(v.List().Len() - 1)
+				if v.List().Len() == 0 {
+					s.Opts.Clear(fd)
+				}
+				changed = "list shortened"
+			case fd.IsMap():
+				return true
+			case fd.Kind() == protoreflect.BoolKind:
+				s.Opts.Set(fd, protoreflect.ValueOfBool(!v.Bool()))
+				changed = "bool flipped"
+			case fd.Kind() == protoreflect.Int32Kind || fd.Kind() == protoreflect.Sint32Kind || fd.Kind() == protoreflect.Sfixed32Kind:
+				s.Opts.Set(fd, protoreflect.ValueOfInt32(int32(v.Int())^1))
+				changed = "int32 low bit flipped"
+			case fd.Kind() == protoreflect.StringKind:
+				s.Opts.Set(fd, protoreflect.ValueOfString(v.String()+"x"))
+				changed = "string extended"
+			default:
+				s.Opts.Clear(fd)
+				changed = "field cleared"
+			}
+			return false
+		})
+	})
+	if changed == "" {
+		return
+	}
+	if len(compareOptions(mut, want).diffs) == 0 {
+		r.Inconclusive("C20 oracle self-test failed: " + changed + " not noticed by the comparison")
+		return
+	}
+	r.Class("oracle self-test passed (a perturbed option value is noticed)")
 }
